@@ -14,6 +14,7 @@ def base_config(rng, i, tier):
     c.update(fe="single" if i % 2 == 0 else "joint", K=3, limit=4, m=3, eps=0, beta=2.0, beta_form="float",
              lam=0.11, lam_form="float", scale=1.0, n_regimes=3, N=2, W=2 + (i % 2), biased=False)
     c["lens"] = [70] if c["fe"] == "single" else [40, 35]
+    c["hang_limit_s"] = 300        # these calls take about a second; five minutes is a hang even on an overloaded machine
     return c
 
 
